@@ -161,9 +161,31 @@ impl RespondSpec {
 
 // ------------------------------------------------------------------ building real responses through the public API
 
+/// Member content: random, or bytes that mean something to a CBOR framer (empty-map byte, break,
+/// zeros, a trailing `00 a0`, 0x7f), so that content-sensitive framing shortcuts are reached.
 fn fill_bytes(fill: u64, tag: u64, n: usize) -> std::vec::Vec<u8> {
     let mut r = Rng::new(fill, tag, 17);
-    r.bytes(n)
+    let mut b = r.bytes(n);
+    match (fill >> 3).wrapping_add(tag) % 10 {
+        0 => b.iter_mut().for_each(|x| *x = 0x00),
+        1 => b.iter_mut().for_each(|x| *x = 0xa0),
+        2 => b.iter_mut().for_each(|x| *x = 0xff),
+        3 => {
+            if n >= 2 {
+                b[n - 2] = 0x00;
+                b[n - 1] = 0xa0;
+            }
+        }
+        4 => {
+            if n >= 1 {
+                b[n - 1] = 0xa0;
+                b[0] = 0xa0;
+            }
+        }
+        5 => b.iter_mut().for_each(|x| *x = 0x7f),
+        _ => {}
+    }
+    b
 }
 
 fn hbytes<const N: usize>(fill: u64, tag: u64, n: usize) -> Bytes<N> {
